@@ -82,6 +82,7 @@ type Machine struct {
 	nInputs1   int
 	inputIdx   int
 	evIdx      int
+	labelSuffix string // vp.Region: appended to the labels of the assertions that follow on this path
 	events1    []c20event
 	marsh      []*marshalled
 	hexNib     map[*Term]*Term // hex character term -> the nibble it encodes
